@@ -155,6 +155,7 @@ var Mutations = []struct {
 			}
 		}
 	}},
+	{"recover-flag", func(b *types.Block) { b.Header.Recover++ }}, // a recover block while no node is in recover mode: skips the ValidatorsHash check of validateBlock
 	{"data-nil", func(b *types.Block) { b.Data = nil }},
 	{"parenthash", func(b *types.Block) { b.Header.ParentHash[2] ^= 1 }},
 }
